@@ -4,6 +4,17 @@ from fractions import Fraction
 import vlib
 from checks import C06
 
+
+def _unhex(h):
+    """hex field of the line protocol (`-` = empty; anything unparsable is shown as it is rather than crashing the check)"""
+    if h in ("-", "", None):
+        return b""
+    try:
+        return bytes.fromhex(h)
+    except ValueError:
+        return ("<" + str(h) + ">").encode()
+
+
 META = {
     "technique": "Lean 4 theorems over a model of Table::Query / match_extra_code / chunk iterator / script and table translation on "
                  "the C06 index + differential correspondence with the real dictionary and translators on generated dictionaries, "
@@ -390,7 +401,7 @@ def monitor_script(cfg, rows, sid, inp):
         body = cands[1:]
         s = cands[0]
         # a sentence is a concatenation of entries along a path covering the interpreted input
-        target = bytes.fromhex(s[3]) if s[3] != "-" else b""
+        target = _unhex(s[3]) if s[3] != "-" else b""
         reach = {(0, 0)}
         done = False
         frontier = [(0, 0)]
@@ -419,18 +430,18 @@ def monitor_script(cfg, rows, sid, inp):
         if ty == "phrase":
             if en not in exact_ends.get(t, ()):
                 bad.append(("unsound", "candidate %s [%d,%d) is no dictionary entry spelled by that prefix" %
-                            (bytes.fromhex(t).decode("utf-8", "replace"), st, en)))
+                            (_unhex(t).decode("utf-8", "replace"), st, en)))
         elif ty == "completion":
             if en not in pred_ends.get(t, ()) or not cfg["completion"]:
                 bad.append(("unsound", "completion %s [%d,%d) not licensed (completion=%s)" %
-                            (bytes.fromhex(t).decode("utf-8", "replace"), st, en, cfg["completion"])))
+                            (_unhex(t).decode("utf-8", "replace"), st, en, cfg["completion"])))
         else:
             bad.append(("unsound", "unexpected candidate type %s" % ty))
         if last_end is not None and en > last_end:
             bad.append(("order", "a shorter match [0,%d) comes before a longer one [0,%d)" % (last_end, en)))
         if last_end == en and last_type == "completion" and ty == "phrase":
             bad.append(("order", "at [0,%d) a word completion comes before the fully spelled entry %s" %
-                        (en, bytes.fromhex(t).decode("utf-8", "replace"))))
+                        (en, _unhex(t).decode("utf-8", "replace"))))
         last_end, last_type = en, ty
         best = max(exact_ends.get(t, set()) | {0})
         if ty == "phrase" and en in exact_ends.get(t, set()) and en != best:
@@ -439,7 +450,7 @@ def monitor_script(cfg, rows, sid, inp):
     for t in sorted(exact_ends):
         if t not in seen and t != sent_text:
             bad.append(("incomplete", "entry %s (spelled up to %s) is missing from the list" %
-                        (bytes.fromhex(t).decode("utf-8", "replace"), sorted(exact_ends.get(t, set())))))
+                        (_unhex(t).decode("utf-8", "replace"), sorted(exact_ends.get(t, set())))))
     # same code => non-increasing weight.  The clause is about the entries sharing a code (homophones) within one way of matching:
     # the same entry may be reached twice at one end position, once fully spelled (exact) and once as a word completion
     # (predictive: fewer syllables matched, hence fewer penalties), and compare_chunk_by_head_element ranks every exact match
@@ -462,7 +473,7 @@ def monitor_script(cfg, rows, sid, inp):
             k = (en, code, m != 0)
             if k in last and w > last[k] + 1e-12:
                 bad.append(("weight-order", "candidate list: %s [0,%d) code %s weight %r comes after a lighter candidate of the same "
-                            "code (weight %r)" % (bytes.fromhex(t).decode("utf-8", "replace"), en, code, w, last[k])))
+                            "code (weight %r)" % (_unhex(t).decode("utf-8", "replace"), en, code, w, last[k])))
             last[k] = w
     # a candidate never appears a second time with the same code at the same end (an entry listed twice)
     seen_ec = set()
@@ -488,7 +499,7 @@ def monitor_table(cfg, rows, sid, inp, by_weight):
     if inp["g"] is None:
         return bad
     pv, px = parse_keys(inp)
-    code = bytes.fromhex(inp["in"]).rstrip(cfg["delims"].encode())
+    code = _unhex(inp["in"]).rstrip(cfg["delims"].encode())
     words = {}
     for text, c, w in rows:
         if len(c) == 1:
@@ -515,33 +526,33 @@ def monitor_table(cfg, rows, sid, inp, by_weight):
         if t in seen:
             bad.append(("duplicate", "text %s listed twice" % t))
         seen.add(t)
-        if (st, en) != (0, len(bytes.fromhex(inp["in"]))):
+        if (st, en) != (0, len(_unhex(inp["in"]))):
             bad.append(("span", "candidate spans [%d,%d)" % (st, en)))
         if ty == "table":
             if phase != "table":
-                bad.append(("order", "an exact entry (%s) comes after a completion" % bytes.fromhex(t).decode("utf-8", "replace")))
+                bad.append(("order", "an exact entry (%s) comes after a completion" % _unhex(t).decode("utf-8", "replace")))
             if t not in exact:
-                bad.append(("unsound", "%s is no entry with code %r" % (bytes.fromhex(t).decode("utf-8", "replace"), code)))
+                bad.append(("unsound", "%s is no entry with code %r" % (_unhex(t).decode("utf-8", "replace"), code)))
             elif by_weight:
                 w = max(exact[t])
                 if lastw is not None and w > lastw:
-                    shown = ["%s(%s)" % (bytes.fromhex(x[3]).decode("utf-8", "replace"),
+                    shown = ["%s(%s)" % (_unhex(x[3]).decode("utf-8", "replace"),
                                          "/".join(sorted({ws.decode("latin-1") for tt, cc, ws in cfg.get("_raw_rows", []) if tt.hex() == x[3] and len(cc) == 1})))
                              for x in inp["c"] if x[0] == "table"]
                     bad.append(("exact-order", "entries whose code equals the input are not in weight order: %s comes after a lighter "
-                                "entry; list with source weights: %s" % (bytes.fromhex(t).decode("utf-8", "replace"), " ".join(shown[:8]))))
+                                "entry; list with source weights: %s" % (_unhex(t).decode("utf-8", "replace"), " ".join(shown[:8]))))
                 lastw = w
         elif ty == "completion":
             phase = "completion"
             if not cfg["completion"]:
                 bad.append(("unsound", "completion candidate although completion is disabled"))
             if t not in ext:
-                bad.append(("unsound", "%s is no entry whose code extends %r" % (bytes.fromhex(t).decode("utf-8", "replace"), code)))
+                bad.append(("unsound", "%s is no entry whose code extends %r" % (_unhex(t).decode("utf-8", "replace"), code)))
         else:
             bad.append(("unsound", "unexpected candidate type %s" % ty))
     for t in exact:
         if t not in seen:
-            bad.append(("incomplete", "entry %s with code %r is missing" % (bytes.fromhex(t).decode("utf-8", "replace"), code)))
+            bad.append(("incomplete", "entry %s with code %r is missing" % (_unhex(t).decode("utf-8", "replace"), code)))
     if inp["pm"] == 0:
         bad.append(("prism-limit", "ExpandSearch with limit 10 is not a prefix of the unlimited search"))
     return bad
@@ -553,7 +564,7 @@ def monitor_table_sentence(cfg, words, inp):
     due iff such words (at least two) cover the input; it must be a concatenation of entries along such a cover; after it come the
     entries of the words that start the input (sound: only those; complete: at least those that begin a cover), longer first."""
     bad = []
-    raw = bytes.fromhex(inp["in"])
+    raw = _unhex(inp["in"])
     total = len(raw)
     dl = cfg["delims"].encode()
     edges = {}                       # start -> {end: set of texts}
@@ -589,7 +600,7 @@ def monitor_table_sentence(cfg, words, inp):
         if cands:
             c0 = cands[0]
             bad.append(("unsound", "%s %s [%d,%d) although the input cannot be cut into dictionary words (+ delimiters)" %
-                        (c0[0], bytes.fromhex(c0[3]).decode("utf-8", "replace"), c0[1], c0[2])))
+                        (c0[0], _unhex(c0[3]).decode("utf-8", "replace"), c0[1], c0[2])))
         return bad
     if not cands or cands[0][0] != "sentence":
         first = sorted(e for e in edges.get(0, {}) if e in back and e != total)
@@ -597,13 +608,13 @@ def monitor_table_sentence(cfg, words, inp):
                     (first[:3], "the candidate list is empty" if not cands else "no sentence is offered")))
         return bad
     s0 = cands[0]
-    target = bytes.fromhex(s0[3])
+    target = _unhex(s0[3])
     ok, seen_st, todo = False, {(0, 0)}, [(0, 0)]
     while todo and not ok:
         pos, off = todo.pop()
         for e, ts in step(pos):
             for t in ts:
-                tb = bytes.fromhex(t)
+                tb = _unhex(t)
                 if target.startswith(tb, off):
                     st = (e, off + len(tb))
                     if st == (total, len(target)):
@@ -621,7 +632,7 @@ def monitor_table_sentence(cfg, words, inp):
         seen.add(t)
         if ty != "table" or st != 0 or t not in edges.get(0, {}).get(en, ()):
             bad.append(("unsound", "%s %s [%d,%d) is no entry whose code (+ delimiters) starts the input" %
-                        (ty, bytes.fromhex(t).decode("utf-8", "replace"), st, en)))
+                        (ty, _unhex(t).decode("utf-8", "replace"), st, en)))
         if last_end is not None and en > last_end:
             bad.append(("order", "a shorter word [0,%d) comes before a longer one [0,%d)" % (last_end, en)))
         last_end = en
@@ -630,7 +641,7 @@ def monitor_table_sentence(cfg, words, inp):
             for t in sorted(ts):
                 if t not in seen:
                     bad.append(("incomplete", "entry %s, a first word [0,%d) of the sentence's input, is missing" %
-                                (bytes.fromhex(t).decode("utf-8", "replace"), e)))
+                                (_unhex(t).decode("utf-8", "replace"), e)))
     return bad
 
 
@@ -714,7 +725,7 @@ def evaluate(run, cfgs, inputs_by_cfg, stats=None, want_model=True):
                 if sch["kind"] == "table":
                     stats["table_sentences"] += 1 if inp["c"] and inp["c"][0][0] == "sentence" else 0
                     stats["table_sentence_mode_inputs"] += 1 if cfg.get("sentence") else 0
-                    stats["table_inputs_with_inner_delimiter"] += 1 if any(ch in cfg["delims"] for ch in bytes.fromhex(inp["in"]).decode("latin-1").rstrip(cfg["delims"])) else 0
+                    stats["table_inputs_with_inner_delimiter"] += 1 if any(ch in cfg["delims"] for ch in _unhex(inp["in"]).decode("latin-1").rstrip(cfg["delims"])) else 0
                 stats["with_completion"] += 1 if any(x[0] == "completion" for x in inp["c"]) else 0
                 stats["long_code_hits"] += sum(1 for v in inp["lk"].values() for x in v if x[2].count(",") >= 3)
                 stats["graph_edges"] += len(inp["gi"])
@@ -732,7 +743,7 @@ def evaluate(run, cfgs, inputs_by_cfg, stats=None, want_model=True):
 def shrink(run, cfg, kind, inhex, clause, budget):
     """fewer dictionary rows, same input, same clause"""
     evals = [0]
-    s = bytes.fromhex(inhex).decode("latin-1")
+    s = _unhex(inhex).decode("latin-1")
 
     def fails(lines):
         evals[0] += 1
@@ -823,9 +834,9 @@ def run(c):
         if inhex is not None and not (known and known.get("status") == "open") and not cfg["name"].startswith("c"):
             small, ev = shrink(run_, cfg, kind, inhex, clause, 50 if quick else 150)
             stats["shrink_evals"] += ev
-        c.report(sig, "%s schema, input %r: %s" % (kind, bytes.fromhex(inhex).decode("latin-1") if inhex else None, det[:400]),
+        c.report(sig, "%s schema, input %r: %s" % (kind, _unhex(inhex).decode("latin-1") if inhex else None, det[:400]),
                  {"kind": "impl-violation", "clause": clause, "schema_kind": kind, "config": config_to_json(small),
-                  "inputs": [bytes.fromhex(inhex).decode("latin-1")] if inhex else [], "detail": det,
+                  "inputs": [_unhex(inhex).decode("latin-1")] if inhex else [], "detail": det,
                   "source_hash": vlib.source_hash(SRC_FILES), "gen_version": GEN_VERSION})
     if not all_fails:
         for cfg, kind, inhex, clause, det in all_diffs:
@@ -834,9 +845,9 @@ def run(c):
                 continue
             seen.add(sig)
             c.report(sig, "model and implementation disagree (%s schema, input %r): %s" %
-                     (kind, bytes.fromhex(inhex).decode("latin-1"), det[:400]),
+                     (kind, _unhex(inhex).decode("latin-1"), det[:400]),
                      {"kind": "correspondence", "broken": "correspondence driver_c07 vs c07_harness", "schema_kind": kind,
-                      "config": config_to_json(cfg), "inputs": [bytes.fromhex(inhex).decode("latin-1")], "detail": det}, no_input=True)
+                      "config": config_to_json(cfg), "inputs": [_unhex(inhex).decode("latin-1")], "detail": det}, no_input=True)
     if not audit["ok"] and not all_fails:
         c.report("C07:proof", "proof obligation no longer checks: %s" % "; ".join("%s: %s" % f for f in audit["failures"])[:600],
                  {"kind": "proof", "broken_theorems": audit["failures"], "lean_log": audit["log"][-3000:]}, no_input=True)
